@@ -97,10 +97,6 @@ def layout(name):
 @atexit.register
 def _cleanup():
     shutil.rmtree(FSBASE, ignore_errors=True)
-    try:
-        os.rmdir(os.path.dirname(FSBASE))
-    except OSError:
-        pass
 
 
 # ----------------------------------------------------------------------------- observation of the real code
